@@ -147,6 +147,11 @@ func runC02WT(cfg Config, r *Result) {
 		src, _ := c02EmptyProgram(cfg.Rng)
 		progs = append(progs, src)
 	}
+	for i := 0; i < cfg.N(400, 8000); i++ {
+		// assignment target chains of every shape (harness/c02targets.go)
+		src, _ := c02TargetProgram(cfg.Rng)
+		progs = append(progs, src)
+	}
 	for _, src := range progs {
 		prog, perr := safeParse(src)
 		if perr != nil {
